@@ -26,6 +26,9 @@ type c15Case struct {
 	Field  string   `json:"field,omitempty"` // dash-src: form field; chain: position
 	Marker int      `json:"marker"`
 	Form   int      `json:"form"`
+	// Disabled: the integration(s) holding the substituted leaf additionally carry enabled:false (validation
+	// must not depend on it: Migrate/DDL cover every file integration, the dashboard stores the submission)
+	Disabled bool `json:"disabled,omitempty"`
 }
 
 func init() {
@@ -33,7 +36,7 @@ func init() {
 		ID:        "C15",
 		Level:     "exploration",
 		Technique: "exhaustive single-position substitution of hostile markers into every string leaf of a maximal configuration tree (file start-up path and real dashboard handlers) and into chain data, each variant executed through the real pipeline against the fake Postgres; oracle = marker search over every SQL text received",
-		Rule: "maximal configuration (3 sources, 3 integrations: log with user unique/index/notification, log with nested tuple components carrying column/filter/filter_ref, trace on a shared table); every string leaf (incl. strings in arrays) x 9 markers (' \" ; ) ( -- $$ \\ .) [thorough: x 3 forms whole/suffix/prefix]; unique/index entries additionally as \"<column> <marker>\" and \"<column> desc <marker>\" (only ASC/DESC may follow the single space); " +
+		Rule: "maximal configuration (3 sources, 3 integrations: log with user unique/index/notification, log with nested tuple components carrying column/filter/filter_ref, trace on a shared table); every string leaf (incl. strings in arrays) x 9 markers (' \" ; ) ( -- $$ \\ .) as the whole value, and with the metacharacter as FIRST character, as LAST character and alone on identifier-like leaves [thorough: on all leaves, plus suffix/prefix of the benign value]; every substitution inside an integration also with that integration enabled:false; unique/index entries additionally as \"<column> <marker>\" and \"<column> desc <marker>\" (only ASC/DESC may follow the single space); " +
 			"FILE: decode -> ValidateFix -> Schema+Migrate -> loadTasks -> 5 rounds of one Converge per task with a reorg of block 2 -> PruneTask; DASHBOARD: every string leaf of each integration as submitted to web.Handler.SaveIntegration (others pre-stored) and every form value of SaveSource -> Manager.Restart -> runner threads to stop=3 with the same reorg; " +
 			"CHAIN: 11 chain-data positions x 9 markers on the benign configuration. A case is non-trivial when the variant was rejected by validation or accepted and executed; distinct = distinct (mode, position, marker, form).",
 		Assumptions: []string{
@@ -41,6 +44,7 @@ func init() {
 			"a space is not a hostile character (documented \"col DESC\" index syntax); '.' is (schema qualification)",
 			"dashboard integrations are submitted in the form the validated configuration has (identity columns/fields present, top-level filter_ref.table filled in): shovel applies neither AddRequiredFields nor ValidateFilterRefs to stored integrations, so a working submission must carry them; the tables were created beforehand (the dashboard never migrates)",
 			"variants whose source URL does not parse end the real process (jrpc2.MustURL → os.Exit) before any hostile SQL; they are classified exit:url-parse without execution",
+			"a bare metacharacter cannot be searched for in SQL (every statement has quotes and parentheses) and a disabled dashboard submission issues no SQL of its own: both are judged by consistency — accepted although the identifier check rejects the same substitution as a whole marker / in an enabled integration = check bypassed",
 			"sequential executions (one controlled thread at a time, no preemption): the property is about SQL text, not interleavings",
 			"panics of the code under test provoked by a variant (e.g. a dashboard submission with a column on a tuple input, or filter_ref.integration on a numeric field without filter_arg) are not SQL text: they are recorded as outcomes observed-panic:<path>:<position> and never judged by this check",
 		},
@@ -56,38 +60,53 @@ func c15Jobs(thorough bool) ([]c15Case, error) {
 	if err := c15PrepareBenign(); err != nil {
 		return nil, err
 	}
-	forms := 1
-	if thorough {
-		forms = 3
-	}
 	jobs := []c15Case{{Mode: "base-file"}, {Mode: "base-dash", IG: 0}, {Mode: "base-dash", IG: 1}, {Mode: "base-dash", IG: 2}, {Mode: "base-dash", IG: -1}}
+	// formsFor: whole always; suffix/prefix in thorough; the two space forms on unique/index entries; the
+	// metacharacter first / last / alone on identifier-like leaves (thorough: on every leaf)
+	formsFor := func(path []string, val string) []int {
+		fs := []int{0}
+		if thorough && val != "" {
+			fs = append(fs, 1, 2)
+		}
+		if path != nil && c15SpaceForm(path) {
+			fs = append(fs, 3, 4)
+		}
+		if thorough || path == nil || c15IdentifierLike(path) {
+			fs = append(fs, 5, 6, 7)
+		}
+		return fs
+	}
 	var ls []leaf
 	stringLeaves(c15Base(), nil, &ls)
 	for _, l := range ls {
+		inIG := len(l.Path) > 0 && l.Path[0] == "integrations"
 		for m := range c15Markers {
-			for f := 0; f < forms; f++ {
-				if f > 0 && l.Val == "" {
-					continue // suffix/prefix of an empty value = whole
-				}
+			for _, f := range formsFor(l.Path, l.Val) {
 				jobs = append(jobs, c15Case{Mode: "file", Path: l.Path, Marker: m, Form: f})
-			}
-			if c15SpaceForm(l.Path) {
-				jobs = append(jobs, c15Case{Mode: "file", Path: l.Path, Marker: m, Form: 3}, c15Case{Mode: "file", Path: l.Path, Marker: m, Form: 4})
+				if inIG && (f == 0 || (thorough && f == 5)) && (thorough || c15IdentifierLike(l.Path)) {
+					jobs = append(jobs, c15Case{Mode: "file", Path: l.Path, Marker: m, Form: f, Disabled: true})
+				}
 			}
 		}
 	}
 	for _, g := range linkGroups(c15Base()) {
 		for m := range c15Markers {
-			for f := 0; f < forms; f++ {
+			for _, f := range formsFor(nil, g.Value) {
 				jobs = append(jobs, c15Case{Mode: "file-linked", Field: g.Value, Marker: m, Form: f})
+				if f == 0 && g.Kind != "source.name" {
+					jobs = append(jobs, c15Case{Mode: "file-linked", Field: g.Value, Marker: m, Form: f, Disabled: true})
+				}
 			}
 		}
 	}
 	for k, tree := range c15Benign.igTrees {
 		for _, g := range linkGroups(tree) {
 			for m := range c15Markers {
-				for f := 0; f < forms; f++ {
+				for _, f := range formsFor(nil, g.Value) {
 					jobs = append(jobs, c15Case{Mode: "dash-linked", IG: k, Field: g.Value, Marker: m, Form: f})
+					if f == 0 {
+						jobs = append(jobs, c15Case{Mode: "dash-linked", IG: k, Field: g.Value, Marker: m, Form: f, Disabled: true})
+					}
 				}
 			}
 		}
@@ -95,21 +114,18 @@ func c15Jobs(thorough bool) ([]c15Case, error) {
 		stringLeaves(tree, nil, &ils)
 		for _, l := range ils {
 			for m := range c15Markers {
-				for f := 0; f < forms; f++ {
-					if f > 0 && l.Val == "" {
-						continue
-					}
+				for _, f := range formsFor(l.Path, l.Val) {
 					jobs = append(jobs, c15Case{Mode: "dash-ig", IG: k, Path: l.Path, Marker: m, Form: f})
-				}
-				if c15SpaceForm(l.Path) {
-					jobs = append(jobs, c15Case{Mode: "dash-ig", IG: k, Path: l.Path, Marker: m, Form: 3}, c15Case{Mode: "dash-ig", IG: k, Path: l.Path, Marker: m, Form: 4})
+					if (f == 0 || (thorough && f == 5)) && (thorough || c15IdentifierLike(l.Path)) {
+						jobs = append(jobs, c15Case{Mode: "dash-ig", IG: k, Path: l.Path, Marker: m, Form: f, Disabled: true})
+					}
 				}
 			}
 		}
 	}
 	for _, field := range []string{"name", "chainID", "ethURL"} {
 		for m := range c15Markers {
-			for f := 0; f < forms; f++ {
+			for _, f := range formsFor(nil, "x") {
 				jobs = append(jobs, c15Case{Mode: "dash-src", Field: field, Marker: m, Form: f})
 			}
 		}
@@ -119,7 +135,14 @@ func c15Jobs(thorough bool) ([]c15Case, error) {
 			jobs = append(jobs, c15Case{Mode: "chain", Field: pos, Marker: m})
 		}
 	}
-	return jobs, nil
+	// the bare double hyphen conforms to the stated restriction and cannot be traced in SQL: not enumerated
+	kept := jobs[:0]
+	for _, j := range jobs {
+		if !(j.Form == 7 && c15HyphenOnly(j.Marker)) {
+			kept = append(kept, j)
+		}
+	}
+	return kept, nil
 }
 
 var c15BenignChains *c15Chains
@@ -135,10 +158,51 @@ func benignChains() c15Chains {
 var c15SrcForm = map[string]string{"name": "dsrc", "chainID": "10", "ethURL": "http://node2"}
 
 // c15Exec executes one case and returns its result, position class and a description of the variant.
+// Two families are additionally judged by CONSISTENCY of the identifier check (the SQL search cannot see a
+// bare metacharacter, and a disabled integration submitted through the dashboard issues no SQL by itself):
+// when the variant was accepted although the same substitution as a whole marker / in an enabled
+// integration is rejected by the identifier check, the check was bypassed.
 func c15Exec(k c15Case) (res c15Res, pos string, variant string) {
+	res, pos, variant = c15ExecOne(k, false)
+	if k.Form == 7 && strings.Contains(res.harness, "unsupported SQL") {
+		// an accepted bare metacharacter made a statement the fake cannot parse: it was accepted, which is
+		// all the consistency judgement needs
+		res.harness, res.outcome = "", "accepted-param:unparseable-sql"
+	}
+	if (k.Form == 7 || k.Disabled) && strings.HasPrefix(res.outcome, "accepted-param") && !c15HyphenOnly(k.Marker) {
+		ck := k
+		how := "the bare metacharacter"
+		if k.Disabled {
+			ck.Disabled, how = false, "enabled:false"
+		} else {
+			ck.Form = 0
+		}
+		if r2, _, v2 := c15ExecOne(ck, true); r2.outcome == "rejected:identifier-check" {
+			res.outcome = "BYPASS"
+			res.detail = fmt.Sprintf("accepted with %s, although the identifier check rejects the counterpart (%s): %s", how, v2, r2.detail)
+		}
+	}
+	return
+}
+
+// disableAt sets enabled:false on the integration of a file tree that holds path.
+func disableAt(tree any, path []string) {
+	if len(path) >= 2 && path[0] == "integrations" {
+		if ig, ok := getAt(tree, path[:2]); ok {
+			ig.(map[string]any)["enabled"] = false
+		}
+	}
+}
+
+func c15ExecOne(k c15Case, probe bool) (res c15Res, pos string, variant string) {
+	needles := c15NeedlesFor(k.Marker, k.Form)
+	dis := ""
+	if k.Disabled {
+		dis = "disabled:"
+	}
 	switch k.Mode {
 	case "base-file":
-		return c15FileExec(toJSON(c15Base()), benignChains(), nil), "base", "benign configuration"
+		return c15FileExec(toJSON(c15Base()), benignChains(), nil, false), "base", "benign configuration"
 	case "base-dash":
 		if err := c15PrepareBenign(); err != nil {
 			return c15Res{harness: err.Error()}, "base", ""
@@ -156,8 +220,14 @@ func c15Exec(k c15Case) (res c15Res, pos string, variant string) {
 		}
 		v := c15Variant(s, k.Marker, k.Form)
 		setAt(tree, k.Path, v)
-		return c15FileExec(toJSON(tree), benignChains(), c15Needles(k.Marker)), posClass(k.Path),
-			fmt.Sprintf("file configuration with %s = %s (was %q)", strings.Join(k.Path, "."), toJSON(v), s)
+		if k.Disabled {
+			disableAt(tree, k.Path)
+		}
+		pos, variant = dis+posClass(k.Path), fmt.Sprintf("file configuration with %s%s = %s (was %q)", strings.Replace(dis, ":", " integration, ", 1), strings.Join(k.Path, "."), toJSON(v), s)
+		if strings.HasPrefix(v, "$") && c15EnvPosition(posClass(k.Path)) {
+			return c15Res{outcome: "exit:env-placeholder"}, pos, variant
+		}
+		return c15FileExec(toJSON(tree), benignChains(), needles, probe), pos, variant
 	case "file-linked", "dash-linked":
 		if err := c15PrepareBenign(); err != nil {
 			return c15Res{harness: err.Error()}, "", ""
@@ -179,19 +249,28 @@ func c15Exec(k c15Case) (res c15Res, pos string, variant string) {
 		v := c15Variant(k.Field, k.Marker, k.Form)
 		for _, p := range grp.Paths {
 			setAt(tree, p, v)
+			if k.Disabled && k.Mode == "file-linked" {
+				disableAt(tree, p)
+			}
 		}
-		pos := "linked:" + grp.Kind
+		if k.Disabled && k.Mode == "dash-linked" {
+			tree.(map[string]any)["enabled"] = false
+		}
+		pos = dis + "linked:" + grp.Kind
+		if strings.HasPrefix(v, "$") && c15EnvPosition("linked:"+grp.Kind) {
+			return c15Res{outcome: "exit:env-placeholder"}, pos, ""
+		}
 		if k.Mode == "file-linked" {
-			return c15FileExec(toJSON(tree), benignChains(), c15Needles(k.Marker)), pos,
-				fmt.Sprintf("file configuration with the identifier %q renamed to %s at all %d places that hold it (%s)", k.Field, toJSON(v), len(grp.Paths), grp.Kind)
+			return c15FileExec(toJSON(tree), benignChains(), needles, probe), pos,
+				fmt.Sprintf("file configuration with %sthe identifier %q renamed to %s at all %d places that hold it (%s)", strings.Replace(dis, ":", " integration(s), ", 1), k.Field, toJSON(v), len(grp.Paths), grp.Kind)
 		}
-		return c15DashExec(dashReq{Kind: "integration", IG: k.IG, Body: toJSON(tree)}, benignChains(), c15Needles(k.Marker)), pos,
-			fmt.Sprintf("POST /save-integration of %s with the identifier %q renamed to %s at all %d places that hold it (%s)", c15Benign.conf.Integrations[k.IG].Name, k.Field, toJSON(v), len(grp.Paths), grp.Kind)
+		return c15DashExec(dashReq{Kind: "integration", IG: k.IG, Body: toJSON(tree), Probe: probe}, benignChains(), needles), pos,
+			fmt.Sprintf("POST /save-integration of %s%s with the identifier %q renamed to %s at all %d places that hold it (%s)", strings.Replace(dis, ":", " ", 1), c15Benign.conf.Integrations[k.IG].Name, k.Field, toJSON(v), len(grp.Paths), grp.Kind)
 	case "dash-ig":
 		if err := c15PrepareBenign(); err != nil {
 			return c15Res{harness: err.Error()}, "", ""
 		}
-		tree := cloneTree(c15Benign.igTrees[k.IG])
+		tree := cloneTree(c15Benign.igTrees[k.IG]).(map[string]any)
 		old, ok := getAt(tree, k.Path)
 		s, isStr := old.(string)
 		if !ok || !isStr {
@@ -199,19 +278,29 @@ func c15Exec(k c15Case) (res c15Res, pos string, variant string) {
 		}
 		v := c15Variant(s, k.Marker, k.Form)
 		setAt(tree, k.Path, v)
-		return c15DashExec(dashReq{Kind: "integration", IG: k.IG, Body: toJSON(tree)}, benignChains(), c15Needles(k.Marker)), posClass(k.Path),
-			fmt.Sprintf("POST /save-integration of %s with %s = %s (was %q)", c15Benign.conf.Integrations[k.IG].Name, strings.Join(k.Path, "."), toJSON(v), s)
+		if k.Disabled {
+			tree["enabled"] = false
+		}
+		pos, variant = dis+posClass(k.Path), fmt.Sprintf("POST /save-integration of %s%s with %s = %s (was %q)", strings.Replace(dis, ":", " ", 1), c15Benign.conf.Integrations[k.IG].Name, strings.Join(k.Path, "."), toJSON(v), s)
+		if strings.HasPrefix(v, "$") && c15EnvPosition(posClass(k.Path)) {
+			return c15Res{outcome: "exit:env-placeholder"}, pos, variant
+		}
+		return c15DashExec(dashReq{Kind: "integration", IG: k.IG, Body: toJSON(tree), Probe: probe}, benignChains(), needles), pos, variant
 	case "dash-src":
 		form := map[string]string{}
 		for f, v := range c15SrcForm {
 			form[f] = v
 		}
 		form[k.Field] = c15Variant(form[k.Field], k.Marker, k.Form)
-		return c15DashExec(dashReq{Kind: "source", Form: form, SrcRef: form["name"]}, benignChains(), c15Needles(k.Marker)), "saveSource." + k.Field,
+		ref := form["name"]
+		if strings.HasPrefix(ref, "$") {
+			ref = "dsrc" // a stored source reference "$…" would be read as an environment placeholder (wos.EnvString) and end the process
+		}
+		return c15DashExec(dashReq{Kind: "source", Form: form, SrcRef: ref, Probe: probe}, benignChains(), needles), "saveSource." + k.Field,
 			fmt.Sprintf("POST /save-source with %s = %q", k.Field, form[k.Field])
 	case "chain":
 		h := &chainHostile{Pos: k.Field, Marker: c15Markers[k.Marker]}
-		return c15FileExec(toJSON(c15Base()), c15BuildChains(h), []string{c15Markers[k.Marker]}), k.Field,
+		return c15FileExec(toJSON(c15Base()), c15BuildChains(h), []string{c15Markers[k.Marker]}, false), k.Field,
 			fmt.Sprintf("benign configuration, chain data %s carries %q", k.Field, c15Markers[k.Marker])
 	}
 	return c15Res{harness: "unknown mode " + k.Mode}, "", ""
@@ -300,6 +389,14 @@ func c15Report(c *fw.Ctx, k c15Case, r c15Res, pos, variant string) {
 	if k.Mode == "chain" {
 		c.Count("chain_rows", int64(r.rows["ta"]+r.rows["tb"]))
 	}
+	if r.outcome == "BYPASS" {
+		how := "disabled"
+		if k.Form == 7 {
+			how = "bare-metacharacter"
+		}
+		c.Violation("C15", "check-bypassed", "identifier-check-bypassed:"+how+":"+mode+":"+strings.TrimPrefix(pos, "disabled:"),
+			fmt.Sprintf("%s\n%s", variant, r.detail), k)
+	}
 	if r.outcome == "LEAK" {
 		c.Violation("C15", "sql-splice", "sql-splice:"+mode+":"+pos,
 			fmt.Sprintf("%s\nwas accepted by validation and the hostile text reached SQL (%s phase):\n  %s", variant, r.where, strings.TrimSpace(r.leak)), k)
@@ -325,11 +422,8 @@ func c15Run(c *fw.Ctx) {
 	}
 	c.Bound("cases", len(jobs))
 	c.Bound("markers", len(c15Markers))
-	forms := 1
-	if c.Thorough() {
-		forms = 3
-	}
-	c.Bound("forms", forms)
+	c.Bound("forms", "whole; metacharacter first/last/alone on identifier-like leaves (thorough: all leaves); unique/index: after-space, after-direction; thorough: suffix, prefix")
+	c.Bound("disabled_integration_dimension", "whole marker on identifier-like leaves inside an integration (thorough: all leaves, also metacharacter-first)")
 	var ls []leaf
 	stringLeaves(c15Base(), nil, &ls)
 	c.Bound("file_string_leaves", len(ls))
